@@ -737,6 +737,70 @@ func (g *apiGen) lateGrowth() string {
 	return fm
 }
 
+// growLater attaches a growable action to `owner` with the statement `attach` (a format with one %s for the action
+// variable) FIRST and completes it afterwards through its own adders / setters
+func (g *apiGen) growLater(attach string) {
+	r := g.c.rng
+	switch r.Intn(3) {
+	case 0:
+		ct := g.v()
+		g.add("%s=NewNXActionConnTrack()", ct)
+		g.add("$%s.Commit()", ct)
+		g.add(attach, ct)
+		for j := 1 + r.Intn(3); j > 0; j-- {
+			a := g.action(0)
+			g.add("$%s.AddAction($%s)", ct, a)
+		}
+	case 1:
+		ct := g.v()
+		g.add("%s=NewNXActionConnTrack()", ct)
+		nat := g.v()
+		g.add("%s=NewNXActionCTNAT()", nat)
+		g.add("$%s.SetSNAT()", nat)
+		g.add("$%s.AddAction($%s)", ct, nat)
+		g.add(attach, ct)
+		g.add("$%s.SetRangeIPv4Min(%s)", nat, g.bytes(4))
+		if r.Intn(2) == 0 {
+			g.add("$%s.SetRangeIPv4Max(%s)", nat, g.bytes(4))
+		}
+	default:
+		a := g.action(1)
+		g.add(attach, a)
+	}
+}
+
+// lateGrowthPacketOut / lateGrowthGroupMod: the same top-down construction for a packet-out (actions, then data) and
+// for a group-mod whose buckets receive their actions before those are complete (the bucket is added by value last,
+// as the API requires; its actions are shared pointers)
+func (g *apiGen) lateGrowthPacketOut() string {
+	po := g.v()
+	g.add("%s=NewPacketOut()", po)
+	g.add("$%s.Xid=%d", po, g.edge(0xffffffff))
+	g.add("$%s.InPort=%d", po, g.edge(0xffffff00))
+	for n := 1 + g.c.rng.Intn(3); n > 0; n-- {
+		g.growLater("$" + po + ".AddAction($%s)")
+	}
+	g.add("$%s.SetData(%s)", po, g.bytes(16+g.c.rng.Intn(48)))
+	return po
+}
+
+func (g *apiGen) lateGrowthGroupMod() string {
+	gm := g.v()
+	g.add("%s=NewGroupMod()", gm)
+	g.add("$%s.Xid=%d", gm, g.edge(0xffffffff))
+	g.add("$%s.Command=%d", gm, g.c.rng.Intn(2))
+	g.add("$%s.GroupId=%d", gm, g.edge(0xffffff00))
+	for k := 1 + g.c.rng.Intn(2); k > 0; k-- {
+		b := g.v()
+		g.add("%s=NewBucket()", b)
+		for n := 1 + g.c.rng.Intn(2); n > 0; n-- {
+			g.growLater("$" + b + ".AddAction($%s)")
+		}
+		g.add("$%s.AddBucket(*$%s)", gm, b)
+	}
+	return gm
+}
+
 func init() {
 	apiGens = append(apiGens, func(g *apiGen) {
 		// single elements
@@ -763,6 +827,10 @@ func init() {
 		g.emit(sn)
 		lg := g.lateGrowth()
 		g.emitAs("apix", lg)
+		lp := g.lateGrowthPacketOut()
+		g.emitAs("apix", lp)
+		lgm := g.lateGrowthGroupMod()
+		g.emitAs("apix", lgm)
 		// bundle-add wrapping any other message
 		m := g.message()
 		ba := g.v()
